@@ -81,6 +81,15 @@ CLAIMED = {
         note="trusted: rustc's checks; syn's parse",
         design="5/C15",
     ),
+    "C07": dict(
+        technique="static analysis: symbolic encoder/decoder transducer composition decided for all strings (4 shells), raw-text taint analysis of every format hole over the syn tree, quoting/eval rules on the parsed bash skeleton with def-use dimension inference",
+        text="Decides on /repo's current source: (ENC) for each of the four make_string_constant encoders, extracted on every run as a chain of character replacements, that the target shell's double-quote rules read `\"` + encode(s) + `\"` back as exactly s, "
+        "closed at its end and with no live expansion, for ALL strings s (product construction with the shell's decoder transducer, not sampling); (SINK/QCTX) that in every emitter grammar text reaches a script hole only through that encoder "
+        "(except the documented raw command body) and that encoded holes sit outside quotes in their templates; (SK-QUOTE) that in the emitted bash program, for every flag assignment examined, no comparison uses text as an unquoted glob pattern, "
+        "eval re-reads only clean values, and no text variable is expanded unquoted in a command word. It does NOT decide that real shells follow their manuals (the decoders are transcriptions), nor what readline finally displays; zsh/fish/pwsh skeleton quoting is not analysed.",
+        note="trusted: decoder transcriptions in vlib/xducer.py; the text/clean seeds in vlib/shdims.py (cword is an integer, bind -v output is not user text); syn's parse; the syntactic type inference (unknown types are followed structurally)",
+        design="5/C07",
+    ),
     "C02": dict(
         technique="static analysis: syn syntax-tree rules (traversal completeness, rebuild-preserves, translation table, field-flow provenance, pass order)",
         text="Decides the shape-visible necessary conditions of C02 on /repo's current source (every pass descends into every child; rebuilt nodes keep their labels; "
